@@ -4,6 +4,7 @@
 
 from __future__ import division
 
+import math
 import numpy as np
 import numbers
 
@@ -332,12 +333,8 @@ class Units(object):
         exponents = (self.exponents[0]//2, self.exponents[1]//2,
                                            self.exponents[2]//2)
 
-        numer = np.sqrt(self.triple[0])
-        denom = np.sqrt(self.triple[1])
-        if numer == int(numer):
-            numer = int(numer)
-        if denom == int(denom):
-            denom = int(denom)
+        numer = Units._sqrt_of_coefficient(self.triple[0])
+        denom = Units._sqrt_of_coefficient(self.triple[1])
 
         pi_expo = self.triple[2] // 2
         if self.triple[2] != 2*pi_expo:
@@ -348,6 +345,23 @@ class Units(object):
             name = Units.name_power(self.name, 0.5)
 
         return Units(exponents, (numer, denom, pi_expo), name)
+
+    @staticmethod
+    def _sqrt_of_coefficient(value):
+        """The square root of a numerator or denominator: an exact int if the
+        value is a perfect square of any size, otherwise a float.
+        """
+
+        if isinstance(value, numbers.Integral) and value >= 0:
+            root = math.isqrt(int(value))
+            if root * root == value:
+                return root
+            return math.sqrt(value)
+
+        root = np.sqrt(value)
+        if root == int(root):
+            root = int(root)
+        return root
 
     #####################################################
     # Static versions of arithmetic operations
